@@ -92,6 +92,16 @@ def obligations(cv):
     return obs
 
 
+def signature_wrapper_obligations():
+    """the RSA signature verifiers used for certificate signatures: a failed public operation, a failed unpadding and an over-long
+    signature must each make the verifier return 0 (shared with C04: "each certificate is signed by the next one's key")"""
+    names = ['BR_MAX_RSA_SIZE >> 3', 'BR_MAX_RSA_FACTOR >> 3']
+    cv = build.const_values(names)
+    for I in ('i15', 'i31', 'i62'):
+        cv['TLEN@' + I] = build.const_values(['TLEN'], includes=('rsa/rsa_%s_priv.c' % I,))['TLEN']
+    return [o for o in obligations(cv) if o.rule == 'rsa-wrappers' and 'pkcs1_vrfy' in o.src]
+
+
 def keygen_forced_bits(chk):
     """Key generation draws each prime with its two top bits and two bottom bits forced to 1 (so that the product of two k-bit primes
     has exactly 2k bits, and candidates are odd and 3 mod 4).  Decided by partial evaluation of mkprime() with the encoded bit length
